@@ -19,7 +19,7 @@ TITLE = "'?' axes are per-leaf-position axes of exactly one structured PyTree"
 
 SPECS = [("arr", "?a"), ("arr", "*?v"), ("arr", "?a b"), ("arr", "?a ?a"), ("arr", "#?a"),
          ("union", [("arr", "?a 3"), ("arr", "?a b")]), ("tup", [("arr", "?a"), ("arr", "?a b")]),
-         ("tree", ("arr", "?a")), ("tree", ("arr", "b ?a")), ("arr", "?a *?v"), ("arr", "a ?a")]
+         ("tree", ("arr", "?a")), ("tree", ("arr", "b ?a")), ("arr", "?a *?v"), ("arr", "a ?a"), ("arr", "*#?v")]
 SKELS = ["t1", "t2", "nest", "dict", "none", "node", "nt"]
 OTHER = {"t1": "t2", "t2": "nest", "nest": "t2", "dict": "nest", "none": "nt", "node": "t2", "nt": "node"}
 
@@ -29,11 +29,14 @@ def instances(tier, seed):
     out = []
     for spec in SPECS:
         for sk in SKELS:
+            if spec == ("arr", "*#?v") and sk not in ("t1", "t2", "none"):
+                continue  # broadcasting forks per axis: keep the trees small
             for second in ("same", "other"):
                 g = "core" if (tier == "thorough" or second == "same" or rng.random() < 0.3) else "ext"
                 out.append((g, dict(kind="use", spec=spec, skel=sk, second=second, maxrank=2,
                                     pre=rng.choice([None, None, "unbound-symbolic", "double-structured", "unbound-structure"]))))
-    for form in ("bare-array", "structureless", "double-structured", "double-structured-deep", "union-outside"):
+    for form in ("bare-array", "structureless", "double-structured", "double-structured-deep", "union-outside",
+                 "double-structured-same", "double-structured-same-single"):
         for dims in ("?a", "*?v", "?a b"):
             for pre in (None, "unbound-symbolic", "double-structured"):
                 out.append(("core", dict(kind="misuse", form=form, dims=dims, pre=pre)))
@@ -150,13 +153,23 @@ def scenario_misuse(inst, V):
             got = c08.observe((x, y), PyTree[A])
         elif form == "double-structured":
             got = c08.observe((x, y), PyTree[PyTree[A, "S"], "T"])
+        elif form == "double-structured-same":
+            got = c08.observe((x, y), PyTree[PyTree[A, "T"], "T"])
+        elif form == "double-structured-same-single":
+            got = c08.observe(x, PyTree[PyTree[A, "T"], "T"])
         elif form == "double-structured-deep":
             got = c08.observe([(x, y), (y,)], PyTree[PyTree[PyTree[A], "S"], "T"])
         elif form == "union-outside":
             got = c08.observe(x, typing.Union[A, int]) if False else c08.observe((x,), PyTree[typing.Union[A, int]])
         post = base.bindings()
     V.reach("misuse-" + got)
-    V.check("misuse-raises", got == "ERR", got=got, form=form)
+    if form == "double-structured-same":
+        # the same structure name at both levels: the inner check binds T to the structure of the
+        # whole tree, which the outer check (one leaf) then contradicts -- a plain rejection is
+        # legitimate here; what must not happen is acceptance
+        V.check("misuse-raises", got in ("ERR", "REJ"), got=got, form=form)
+    else:
+        V.check("misuse-raises", got == "ERR", got=got, form=form)
     V.check("misuse-binds-nothing", not post["single"] and not post["variadic"], post=repr(post))
     return dict(got=got)
 
